@@ -101,6 +101,22 @@ def encodeUtf16 (be : Bool) (c : Nat) : List Nat :=
   if c < 0x10000 then bytes c
   else bytes (0xD800 + (c - 0x10000) / 1024) ++ bytes (0xDC00 + (c - 0x10000) % 1024)
 
+/-- UTF-8 encoding of a code point (as bytes), by arithmetic. -/
+def encodeUtf8 (c : Nat) : List Nat :=
+  if c < 0x80 then [c]
+  else if c < 0x800 then [0xC0 + c / 64, 0x80 + c % 64]
+  else if c < 0x10000 then [0xE0 + c / 4096, 0x80 + c / 64 % 64, 0x80 + c % 64]
+  else [0xF0 + c / 262144, 0x80 + c / 4096 % 64, 0x80 + c / 64 % 64, 0x80 + c % 64]
+
+/-- Decode a byte string character by character with decoder `dec` (`fuel` characters at most). -/
+def decodeSeq (dec : List Nat → Int × Nat) : Nat → List Nat → List (Int × Nat)
+  | 0, _ => []
+  | fuel + 1, s =>
+    if s.isEmpty then []
+    else
+      let r := dec s
+      r :: decodeSeq dec fuel (s.drop r.2)
+
 /-- A Unicode scalar value. -/
 def Scalar (c : Nat) : Prop := c < 0x110000 ∧ ¬ (0xD800 ≤ c ∧ c < 0xE000)
 
